@@ -17,7 +17,7 @@
    recorded findings, see C07/Refuted.v); GroupL1Norm(exponent 2) on a power space X^d whose weights are those
    of X repeated d times, and IndicatorGroupL1UnitBall(exponent 2) likewise.  The KL family has its own
    theorems below (its values involve ln).                                                              *)
-From Coq Require Import Reals Lra List Bool.
+From Coq Require Import Reals Lra Lia List Bool.
 From Verif Require Import Base.Num Base.Vec Base.VecR C07.Model C07.Convex C07.Leaves C07.LeafThms C07.Rules C07.L2 C07.Compose C07.Sorting C07.KL C07.Group C07.Proofs C07.Refuted.
 Import ListNotations.
 Local Open Scope R_scope.
@@ -310,3 +310,14 @@ Example wf_example :
   wf (Sep (Transl [1; 2] (LScal 2 (Leaf FL1 [1; 3])))
           (QPert (1/2) (Some [1]) 3 (RScal (-2) (Leaf (FHuber 1) [1/4])))).
 Proof. cbn; repeat split; try lra; repeat constructor; lra. Qed.
+
+Example wf_example_sorting_and_groups :
+  wf (Sep (LScal 3 (Leaf (FSimplex 1) [2; 2; 2]))
+          (Sep (Transl [1; 0; 0; 2] (Leaf (FGroupL1 2 2 true) [1; 3; 1; 3]))
+               (Sep (Leaf FLInf [1; 1]) (Leaf (FGroupBall 1 2 true) [5; 5])))).
+Proof.
+  cbn [wf leaf_ok length]. repeat split; try lra; try lia; repeat constructor; try lra.
+  - exists 2. reflexivity.
+  - exists [1; 3]. repeat split; try reflexivity; repeat constructor; lra.
+  - exists [5]. repeat split; try reflexivity; repeat constructor; lra.
+Qed.
